@@ -1645,8 +1645,17 @@ static void random_step(vt_rng_t *rng, int *variant)
 	    op_make_correlated(v, other, 1, vt_below(rng, 2), 1, sg);
 	else if (q < 7)
 	    op_make_correlated(v, other, 2, 0, 1, sg);
-	else if (q == 7)
-	    op_make_correlated(v, other, 2, 1, 1, sg);
+	else if (q == 7) {
+	    /* NULL frequency vector: sigma count = knots of the chain end */
+	    int end = other, ns = 2;
+
+	    while (end >= 0 && end < MAX_H && (v->h[end].kind == K_UNKNOWN ||
+			v->h[end].kind == K_CORRELATED))
+		end = v->h[end].other;
+	    if (end >= 0 && end < MAX_H && v->h[end].kind == K_VECTOR)
+		ns = v->h[end].nf;
+	    op_make_correlated(v, other, ns, 1, 1, sg);
+	}
 	else if (q == 8)
 	    op_make_correlated(v, other, vt_below(rng, 2) ? 0 : 2, 0,
 		    vt_below(rng, 2), sg);
@@ -1825,8 +1834,12 @@ static const int prefix2[] = { A_NA1, A_SF, A_ASALL, A_SO, A_ACA, A_SO, A_ACB,
     A_SO, -1 };
 static const int prefix3[] = { A_MS3, A_MU, A_NA1, A_SF, A_AR, -1 };
 static const int prefix4[] = { A_NA2, A_SF, A_ASALL, A_MS4, A_MU, A_AR, A_SO, -1 };
-static const int *prefixes[] = { prefix0, prefix1, prefix2, prefix3, prefix4 };
-#define N_PREFIX 5
+/* vector, unknown of it, correlated with the unknown sharing the vector's
+ * frequencies (NULL sigma frequency vector) */
+static const int prefix5[] = { A_MV, A_MU, A_MCN, -1 };
+static const int *prefixes[] = { prefix0, prefix1, prefix2, prefix3, prefix4,
+    prefix5 };
+#define N_PREFIX 6
 
 static long exh_count(int depth)
 {
